@@ -396,3 +396,27 @@ PROPS["C20"] = dict(
          "of the operation list; non-trivial = at least 20 operations",
     assumptions=["one File object per case, one file on disk per shard", "offsets stay within the file"],
 )
+
+PROPS["C19"] = dict(
+    harness="c19_types_alloc.c", level="fault_enumeration",
+    technique="runtime enumeration: way of obtaining an object x observation (type_of, header allocation class, "
+              "usable size, neighbour integrity) and x freeing/reallocating operation on non-heap objects (must raise "
+              "ResourceError/ValueError and change nothing); ASan for invalid/double frees, allocator ledger for "
+              "release-exactly-once",
+    level_text="Fault enumeration: new, new_raw, new_root, alloc, alloc_raw, $, $S, tuple(), range(), copy, static "
+               "and run-time type objects, elements/keys/values of Array, List, Table, Tree, Tuple (by iteration and "
+               "by get), items of Slice, Filter, Zip and Range; for each: true type, allocation class, size(type) "
+               "writable bytes, neighbours and headers untouched; then del, del_raw, del_root, dealloc, dealloc_raw, "
+               "destruct, assign, concat, append, resize, push, pop, push_at, pop_at, print_to on stack, static and "
+               "embedded objects at container sizes 1,2,3,7,64 and random sizes.",
+    level_note="Embedded Strings may legitimately reallocate their own buffer, so only freeing operations are "
+               "refused for them; reallocating operations are refused for stack and static Strings and Tuples.",
+    quick=[("asan", 16, 30)],
+    thorough=[("asan", 16, 1500), ("plain", 16, 4000)],
+    floors={"quick": {"objects_observed": 5000, "refusals_checked": 2000, "neighbour_checks": 100,
+                      "heap_objects_released_once": 50}},
+    rule="evaluation = one observation or one refused operation; the enumeration is run completely at sizes "
+         "1,2,3,7,64 by shard 0 and at random sizes by the generated cases; distinct = container size; non-trivial = "
+         "every case",
+    assumptions=["element types have sizes that are multiples of 8 (unrounded List/Tree layouts)"],
+)
